@@ -9,7 +9,17 @@ FORMATS = {"rpms": f_rpms, "modules": f_modules, "extra_files": f_extra}
 
 
 def strip_ops(ops):
-    return [dict((k, v) for k, v in op.items() if k not in ("expect", "why")) for op in ops]
+    """what goes to the model: the call without the generator's annotations; floats in the protocol encoding"""
+    return [dict((k, (mc.enc(v) if k == "size" else v)) for k, v in op.items() if k not in ("expect", "why")) for op in ops]
+
+
+# audit B5/C2: documents at and around the readers' version gates (header type checked from 1.1; 0.3 readers below - those are
+# C05/C10's); the type of another format is accepted below 1.1 and refused from 1.1 on
+GATE_VERSIONS = ["0.4", "1.0", "1.1", "1.2", "1.3", "1.10", "9.9"]
+
+
+def ver_tuple(v):
+    return tuple(int(x) for x in v.split("."))
 
 
 class C03(Prop):
@@ -34,7 +44,8 @@ class C03(Prop):
         return out
 
     def _cases(self, rng, tier, budget):
-        f_rpms.reset_budget()
+        f_rpms.reset_budget(tier)
+        mc.reset_round_robin()
         kinds = ["rpms", "modules", "extra_files"]
         for i in range(budget):
             f = FORMATS[kinds[i % 3]]
@@ -55,7 +66,12 @@ class C03(Prop):
             for _ in range(rng.choice([1, 2, 3, 5])):
                 r = rng.random()
                 if r < 0.35:
-                    steps.append({"call": "loads_own"})
+                    st = {"call": "loads_own"}
+                    if rng.random() < 0.35:
+                        st["version"] = GATE_VERSIONS[(i + len(steps)) % len(GATE_VERSIONS)]
+                        if rng.random() < 0.4:
+                            st["type"] = "productmd.images"
+                    steps.append(st)
                     if rng.random() < 0.3:
                         steps.append({"call": "loads_own"})                  # the same text twice
                 elif r < 0.6:
@@ -93,7 +109,12 @@ class C03(Prop):
                     if last is None:
                         out = {"err": "NoText"}
                     else:
-                        obj.loads(last)
+                        text = last
+                        if "version" in st or "type" in st:
+                            d = json.loads(last)
+                            d["header"].update(dict((k_, st[k_]) for k_ in ("version", "type") if k_ in st))
+                            text = json.dumps(d, indent=4, sort_keys=True)
+                        obj.loads(text)
                         out = {"ok": None}
                 elif call == "loads_other":
                     obj.loads(other_text)
@@ -117,14 +138,26 @@ class C03(Prop):
         mc.apply_compose(obj, a["compose"])
         steps = mc.run_trace(obj, f.mapping, f.add, a["ops"])
         before = f.snap(obj)
+        via_file = checklib.key_of(case)[0] in "01"                    # audit B7: 1/8 of the cases go through a real file
         try:
-            t1 = obj.dumps()
+            if via_file:
+                import tempfile, os
+                fd, path = tempfile.mkstemp(suffix=".json")
+                os.close(fd)
+                obj.dump(path)
+                t1 = open(path).read()
+            else:
+                t1 = obj.dumps()
         except Exception as e:  # noqa
             return {"state": before["payload"], "steps": steps, "out": {"err": type(e).__name__}}
         after_dumps = f.snap(obj)                       # dumps() is a read: only header.version may have moved
         try:
             obj2 = f.new()
-            obj2.loads(t1)
+            if via_file:
+                obj2.load(path)
+                os.unlink(path)
+            else:
+                obj2.loads(t1)
             after = f.snap(obj2)
             t2 = obj2.dumps()
             after2 = f.snap(obj2)
@@ -186,6 +219,14 @@ class C03(Prop):
             elif call in ("loads_own", "loads_other"):
                 src = dumped if call == "loads_own" else real_out["other"]
                 if src is None:
+                    prev = cur
+                    continue
+                if st.get("type") and ver_tuple(st.get("version", "1.2")) >= (1, 1):
+                    # another format's header type at a version where it is checked: refused, nothing replaced
+                    if out.get("err") != "ValueError":
+                        return bad(i, st, "foreign-type-accepted", out, "ValueError for a document of another format (header version >= 1.1)")
+                    if cur["payload"] != expected:
+                        return bad(i, st, "refused-load-changed-mapping", {"before": expected, "after": cur["payload"]}, "a refused load leaves the mapping alone")
                     prev = cur
                     continue
                 if "err" in out:
